@@ -38,8 +38,11 @@ def ofac(l, r):
     return math.factorial(r + 1) / 2 * (1 - (1 + (-1) ** l) / (2 * (1 + l)))
 
 
-def first_principles(block, masses, nd, Q):
-    """sqrt(m_i) sum_l n_i n_l (delta_ij [.,.]'_il + delta_jl [.,.]''_il) from the bracket tables (+ constraint term for q00)"""
+def first_principles(block, masses, nd, Q, magnitude=False):
+    """sqrt(m_i) sum_l n_i n_l (delta_ij [.,.]'_il + delta_jl [.,.]''_il) from the bracket tables (+ constraint term for q00);
+    magnitude=True: the same sums over absolute values of the individual terms (the scale against which round-off of exactly
+    cancelling like-molecule terms has to be judged)"""
+    ab = abs if magnitude else (lambda v: v)
     kind, p, q = BLOCKS[block][2]
     tab = tables()[kind]
     nb = len(masses)
@@ -64,13 +67,13 @@ def first_principles(block, masses, nd, Q):
         for j in range(nb):
             v = 0.0
             for l in range(nb):
-                t = (br("11", i, l) if i == j else 0.0) + (br("12", i, l) if j == l else 0.0)
+                t = ab(br("11", i, l) if i == j else 0.0) + ab(br("12", i, l) if j == l else 0.0)
                 v += nd[i] * nd[l] * t
             out[i, j] = math.sqrt(masses[i]) * v
             if block == "q00":
                 c = sum(nd[l] * math.sqrt(masses[l]) / (math.sqrt(masses[i]) * math.sqrt(masses[i] + masses[l])) * Q[(1, 1)][i, l]
                         for l in range(nb) if l != i)
-                out[i, j] -= nd[j] * math.sqrt(masses[j]) * 8 * c
+                out[i, j] += (1 if magnitude else -1) * nd[j] * math.sqrt(masses[j]) * 8 * c
     return out
 
 
@@ -96,7 +99,7 @@ def probe(rng, n_cases):
                 Q = {o: (M + M.T) / 2}
                 a = implementation(block, masses, nd, Q)
                 b = first_principles(block, masses, nd, Q)
-                sc = max(np.max(np.abs(a)), np.max(np.abs(b)), 1e-300)
+                sc = max(np.max(np.abs(a)), np.max(first_principles(block, masses, nd, Q, magnitude=True)), 1e-300)
                 e = float(np.max(np.abs(a - b)) / sc)
                 if e > worst.get((block, o), 0.0):
                     worst[(block, o)] = e
